@@ -1001,20 +1001,22 @@ class Message(ABC):
         )
 
     def __deepcopy__(self: T, _: Any = {}) -> T:
-        kwargs = {}
+        new = self.__class__()
         for name in self._betterproto.sorted_field_names:
             value = self.__raw_get(name)
             if value is not PLACEHOLDER:
-                kwargs[name] = deepcopy(value)
-        return self.__copy_state(self.__class__(**kwargs))  # type: ignore
+                # Fill the slot directly: assigning would mark nested messages
+                # and this message as set, a copy keeps what the original knows.
+                new.__dict__[name] = deepcopy(value)
+        return self.__copy_state(new)  # type: ignore
 
     def __copy__(self: T, _: Any = {}) -> T:
-        kwargs = {}
+        new = self.__class__()
         for name in self._betterproto.sorted_field_names:
             value = self.__raw_get(name)
             if value is not PLACEHOLDER:
-                kwargs[name] = value
-        return self.__copy_state(self.__class__(**kwargs))  # type: ignore
+                new.__dict__[name] = value
+        return self.__copy_state(new)  # type: ignore
 
     def __copy_state(self: T, new: T) -> T:
         # The constructor derives presence from its arguments, a copy has to keep
